@@ -1,4 +1,5 @@
 import EV.Driver.PsetDesc
+import EV.Driver.C08LockTime
 namespace EV.Driver.C08
 open EV EV.Driver EV.Codec EV.Driver.PsetDesc
 
@@ -99,5 +100,7 @@ def totxoutOp : Handler
 
 def ops : List (String × Handler) :=
   [("pset.locktime", locktimeOp), ("pset.fromtx", fromtxOp), ("pset.extract", extractOp),
-   ("pset.uid", uidOp), ("pset.dump", dumpOp), ("pset.totxout", totxoutOp)]
+   ("pset.uid", uidOp), ("pset.dump", dumpOp), ("pset.totxout", totxoutOp)] ++
+  -- lock times and sequence numbers (EV.Model.LockTime)
+  C08LockTime.ops
 end EV.Driver.C08
